@@ -322,17 +322,29 @@ func exec(line string) hx.Result {
 	}
 	var storage *graph.CanonicalStorage
 	var op *graph.CanonicalOrderedPartition
+	junkFailed := false
 	if bound == 0 {
 		storage = graph.NewStorage(capn, capm)
 		op = graph.NewOrderedPartition(capn, capm, nil)
 	} else {
 		l := &lcg{x: int64(seed)}
-		storage = junkStorage(l, capn, capm, bound)
-		op = junkPartition(l, capn, capm, bound)
+		if msg := guard(func() {
+			storage = junkStorage(l, capn, capm, bound)
+			op = junkPartition(l, capn, capm, bound)
+		}); msg != "" {
+			// the structs no longer have the fields this harness knows (a harmless rewrite of the code):
+			// no junk; the results do not depend on it, only the dump in the strict part will differ
+			storage = graph.NewStorage(capn, capm)
+			op = graph.NewOrderedPartition(capn, capm, nil)
+			junkFailed = true
+		}
 	}
 	var viol []hx.OracleViolation
 	var proj, strict []string
 	buckets := []string{"family:" + fam, fmt.Sprintf("bound:%d", bound)}
+	if junkFailed {
+		buckets = append(buckets, "junk:unavailable")
+	}
 	ups, downs, prevN := 0, 0, -1
 	sizes := map[int]bool{}
 	edgeless, classes := false, false
@@ -418,7 +430,9 @@ func exec(line string) hx.Result {
 		buckets = append(buckets, "has:classes")
 	}
 	buckets = append(buckets, fmt.Sprintf("len:%d", len(its)))
-	obs := strings.Join(proj, " | ") + " ## " + strings.Join(strict, " | ") + " final:" + dumpStorage(storage)
+	final := "unreadable"
+	guard(func() { final = dumpStorage(storage) })
+	obs := strings.Join(proj, " | ") + " ## " + strings.Join(strict, " | ") + " final:" + final
 	return hx.Result{Obs: obs, Nontrivial: ups > 0 && downs > 0 && len(sizes) >= 3, Buckets: buckets, Viol: viol}
 }
 
@@ -613,6 +627,51 @@ func gen(g *hx.Gen) {
 			capm = capn * (capn - 1) / 2
 		}
 		emit("structured", capn, capm, bounds(capn), gs, r.Chance(1, 2))
+	}
+	// regular graphs: leaves of the search tree at different depths, so that ints.HasPrefix(firstLeafPath /
+	// currentBestPath, path[:len(path)-1]) reads BEYOND the entries of the recorded leaf, into the stale tail
+	// (measured on an instrumented clone: the six corpus graphs below do, also in a fresh call); with a junk
+	// bound of 1..3 the stale entries often equal the live ones
+	corpus := []string{"Kg_Ox@@ISGAD", "IsD?XScSG", "IKOeKO[KO", "IcCeBGMM?", "Iq_GY_pH_", "I@`SRQaT?"}
+	for _, c := range corpus {
+		h := cx.MustGraph6(c)
+		for b := 1; b <= 3; b++ {
+			for rep := 0; rep < 3; rep++ {
+				emit("stalepath", h.N+rep, h.N*(h.N-1)/2, b, []*cx.G{cx.PathG(h.N), h, h.Relabel(r.Perm(h.N))}, false)
+			}
+		}
+	}
+	for s := 0; s < g.Pick(500, 6000); s++ {
+		var gs []*cx.G
+		capn := 0
+		for i := 0; i < 2+r.Intn(3); i++ {
+			n := 8 + 2*r.Intn(4)
+			d := 3
+			if r.Chance(1, 3) {
+				d = 4
+			}
+			h := cx.RandomRegularSwitch(r, n, d)
+			if r.Chance(1, 2) && n <= 14 {
+				// two copies of a cubic graph joined by the perfect matching i -- i'
+				b := cx.RandomRegularSwitch(r, n/2+n/2%2, 3)
+				if b != nil {
+					m := b.N
+					h = cx.Union(b, b)
+					for v := 0; v < m; v++ {
+						h.Add(v, m+v)
+					}
+				}
+			}
+			if h == nil {
+				h = cx.CycleG(n)
+			}
+			h = h.Relabel(r.Perm(h.N))
+			if h.N > capn {
+				capn = h.N
+			}
+			gs = append(gs, h)
+		}
+		emit("regular", capn+r.Intn(2), capn*(capn+1)/2, 1+r.Intn(3), gs, r.Chance(1, 4))
 	}
 	// tight capacity in edges: capm = the largest m of the sequence
 	for s := 0; s < g.Pick(200, 2000); s++ {
